@@ -344,3 +344,20 @@ def c20(c):
     for k in ('mode_quadruples_plain+dists', 'mode_quadruples_vegas-default+dists', 'mode_quadruples_mc-default', 'mode_quadruples_mc-user-weights+dists',
               'summaries_printed', 'range_lists_checked', 'mpi_mode_quadruples', 'integrand_zero', 'integrand_constant', 'integrand_non-finite-everywhere'):
         c.require(k)
+
+
+@prop('C19',
+      rule="case = one VEGAS or multi-channel run of 2..5 (thorough 2..8) iterations with seeded non-default alpha / beta / minimum weight, default or "
+           "user-supplied grid / weight vector (unnormalised, with zeros), executed serially, resumed through text at a random cut, or on 2/3/5 "
+           "shim-MPI ranks. Checked: result 0 records exactly the user grid / the normalised user weights / the uniform default; result k+1 "
+           "records bitwise the library's own refinement of result k under the checkpoint's parameters; and every logged call is re-derived "
+           "from a private copy of the engine: canonical numbers -> reference inverse CDF on the grid recorded in the result (bin exact, point "
+           "within 8 eps), channel by the interval rule on the recorded weights, coordinates through the channel's map. "
+           "distinct = run configuration; all runs are non-trivial (adaptive state changes every iteration).",
+      assumptions=["the refinement functions themselves are judged by C07/C08; here only that the right state is threaded through",
+                   "canonical numbers within 4 eps of a bin edge / (n+2) eps of a cumulative weight boundary are ambiguous and skipped",
+                   "MPI runs use the in-process shim; per-rank call logs are concatenated in rank order (contiguity is C16's business)"])
+def c19(c):
+    c.std([dict(src='c19_state.cpp', build='asan', shards={'quick': 5, 'thorough': 5}, extra_inc=SHIM, libs=['-pthread'])])
+    for k in ('first_states_checked', 'state_transitions_checked', 'coordinates_predicted', 'channels_predicted', 'runs_serial', 'runs_resumed', 'runs_mpi'):
+        c.require(k)
